@@ -11,6 +11,26 @@ ENGINES = [
 ]
 
 CHECKS = {
+    "C01": {
+        "text": "Static analysis: operand provenance of every operator application in the four metaclass template "
+                "families; the operator table folded and compared entry by entry with the Python data model (independent "
+                "oracle) incl. dispatch on (rev, arity); Stream templates are Stream(map(op, iter(self)[, iter(other)])) "
+                "(stdlib map semantics = element-wise, shortest operand); elementwise wrapper substitutes exactly the "
+                "broadcast position and preserves laziness/container kind; decorator/signature agreement of the "
+                "broadcast family. Element values are not computed.",
+        "note": NOTE,
+        "technique": "provenance analysis + constant folding of the operator table against the data model",
+    },
+    "C09": {
+        "text": "Static analysis: overlap-add memory slices normalised to (start, stop) over symbolic size/hop - "
+                "shift-add lengths agree, emitted prefix and flushed suffix complementary (m*hop + size - hop samples), "
+                "blocks consumed as iterators, mul/add operators, normalisation gain shape; stft wrapper routing "
+                "(ola_params copied while blk_params = {size, hop}; only ola_-prefixed options forwarded, prefix "
+                "stripped) and stage order (window first, then before/transform/func/inverse/after); no StopIteration "
+                "escape from size detection. Numeric sums are not computed.",
+        "note": NOTE,
+        "technique": "symbolic slice algebra + ordered routing/dataflow checks + PEP-479 escape analysis",
+    },
     "C08": {
         "text": "Static analysis: zero_pad summarised into its three yield segments (complete for that sentence); blocks "
                 "analysed as a counter automaton over idx with symbolic size/hop: first block after exactly size appended "
